@@ -137,6 +137,8 @@ def gen_case(rng, k):
     elif (k // 6) % 3 == 2:   # earlier use for a larger frame
         q["prior_shapes"] = [[shape[0] + 2 * int(rng.integers(1, 5)) + int(rng.integers(0, 2)),
                               shape[1] + 2 * int(rng.integers(1, 5)) + int(rng.integers(0, 2))]]
+    if (k // 6) % 4 == 3:     # a run on a frame whose spectrum has the same shape (same height, width 2n <-> 2n+1) right before
+        q["prior_runs"] = [[shape[0], shape[1] + 1 if shape[1] % 2 == 0 else shape[1] - 1]]
     return q
 
 
@@ -166,6 +168,10 @@ def run_case(kind, q):
     for pipeline, runner in (("fast", impl.run_fast), ("full", impl.run_full)):
         for us in [False] + q["upsample"]:
             try:
+                for s_ in q.get("prior_runs", []):
+                    # the same process has just handled a frame of another shape with the same settings
+                    pf = disk_frame(tuple(s_), np.array([s_[0] // 2, s_[1] // 2]), radius, q["amp"], q["bg"])
+                    runner(pf, pattern, np.array([[s_[0] // 2, s_[1] // 2]]), upsample=us)
                 outs = runner(frame, pattern, starts, b=int(rng.integers(1, len(starts) + 2)), upsample=us)
             except Exception as e:
                 msgs.append(f"{pipeline}(upsample={us}) raised {type(e).__name__}: {e}")
